@@ -41,6 +41,9 @@ struct Knobs {
         double p_probe_ok = 0.3;
         double p_phases = 0.3;
         double p_long_run = 0.03;
+        double p_swarm = 0.0; // a table in which about 256 enabled commands share one prefix (8-bit candidate counters wrap)
+        double p_pump = 0.01; // a few hundred events in one op (8-bit ring counters wrap)
+        double p_marathon = 0.0; // more than 65536 accepted events (16-bit counters wrap)
         double p_giant = 0.0004; // working buffer beyond 64 KiB with argument text that crosses the 16-bit boundary
         double p_cut_crlf = 0.08;
         double p_other = 0.15; // a second parser instance runs in between
@@ -57,6 +60,8 @@ struct Gen {
         Plan p;
         ModelState ms; // tracks variable values so that valid/boundary arguments can be derived
         bool giant = false;
+        bool force_marathon = false;
+        std::string swarm_prefix;
         bool empty_ev = false; // which producer may send empty handler texts
         explicit Gen(uint64_t seed) : r(seed) {}
 
@@ -208,6 +213,13 @@ struct Gen {
                 int ncmd = (int)r.range(K.min_cmds, K.max_cmds);
                 if (r.chance(K.p_many_cmds))
                         ncmd = (int)r.range(30, 300);
+                int swarm_n = 0;
+                if (r.chance(K.p_swarm)) {
+                        static const int tg[] = {255, 256, 257, 257, 257, 258};
+                        swarm_n = tg[r.below(6)];
+                        ncmd = swarm_n + (int)r.range(0, 299 - swarm_n);
+                        swarm_prefix = rand_name(3);
+                }
                 // capacities
                 int cap;
                 double x = (double)r.below(1000) / 1000.0;
@@ -236,7 +248,7 @@ struct Gen {
                 ngroups = std::min(ngroups, ncmd);
                 for (int g = 0; g < ngroups; g++) {
                         GroupSpec gs;
-                        gs.disable = r.chance(K.p_group_disable);
+                        gs.disable = r.chance(K.p_group_disable) && swarm_n == 0;
                         gs.named = r.coin();
                         if (gs.named)
                                 gs.name = rand_text(4, false);
@@ -246,7 +258,10 @@ struct Gen {
                 for (int i = 0; i < ncmd; i++) {
                         CmdSpec c;
                         // names: fresh, or derived from an existing one so that prefix chains, duplicates and near misses exist
-                        if (!pool.empty() && K.prefix_names && r.chance(0.55)) {
+                        if (i < swarm_n) {
+                                static const char SW[] = "ABCDEFGHIJKLMNOPQRSTUVWXYZ0123456789";
+                                c.name = swarm_prefix + SW[i / 36] + SW[i % 36];
+                        } else if (!pool.empty() && K.prefix_names && r.chance(0.55)) {
                                 std::string base = pool[r.below(pool.size())];
                                 int how = (int)r.below(5);
                                 if (how == 0 && base.size() < 14)
@@ -263,11 +278,14 @@ struct Gen {
                                 }
                         } else
                                 c.name = rand_name(ncmd > 30 ? 5 : 8);
-                        pool.push_back(c.name);
+                        if (i >= swarm_n)
+                                pool.push_back(c.name);
                         c.group = i < ngroups ? i : (int)r.below((uint64_t)ngroups);
                         c.implicit = r.chance(K.p_implicit);
                         c.only_test = r.chance(K.p_only_test);
                         c.disable = r.chance(K.p_disable);
+                        if (i < swarm_n)
+                                c.disable = c.implicit = false;
                         c.need_all = r.chance(K.p_need_all);
                         if (r.chance(0.4)) {
                                 c.has_desc = true;
@@ -650,6 +668,8 @@ struct Gen {
                         name[r.below(name.size())] = NAME_ALPHA[r.below(sizeof NAME_ALPHA - 1)];
                 else if (how == 3 && !name.empty())
                         name.insert(r.below(name.size() + 1), 1, "!~ ^*(;"[r.below(7)]);
+                if (!swarm_prefix.empty() && r.chance(0.3))
+                        name = swarm_prefix; // the abbreviation every member of the swarm shares
                 name = mangle_case(name, 0.3);
                 body = r.chance(0.9) ? "AT" : mangle_case("AT", 0.5);
                 body += name;
@@ -780,7 +800,21 @@ struct Gen {
                         int lines_here = std::max(1, nlines / phases);
                         int rounds = lines_here * 3;
                         int fed = 0;
+                        int pump_at = -1;
+                        if (!evs.empty() && ph == 0 && (force_marathon || r.chance(K.p_pump)))
+                                pump_at = (int)r.below((uint64_t)rounds);
                         for (int k = 0; k < rounds; k++) {
+                                if (k == pump_at) {
+                                        int64_t per = r.range(1, p.qcap + 1); // the last one of qcap+1 is refused
+                                        bool mar = force_marathon || r.chance(K.p_marathon / std::max(K.p_pump, 1e-9));
+                                        if (mar && r.chance(0.7))
+                                                per = p.qcap + (int64_t)r.below(2); // the queue is full whenever the counters wrap
+                                        int64_t acc = std::min<int64_t>(per, p.qcap);
+                                        int64_t rounds_p = r.range(200, 700) / acc + 1;
+                                        if (mar)
+                                                rounds_p = (65536 + r.range(-8, 600)) / acc + 1;
+                                        op(OP_PUMP, evs[r.below(evs.size())], r.coin() ? CT_READ : CT_TEST, rounds_p, per);
+                                }
                                 double x = (double)r.below(1000) / 1000.0;
                                 if (fed < lines_here && x < 0.4) {
                                         bytes line = gen_line();
@@ -1443,6 +1477,7 @@ void knobs_for(const std::string &prop, Knobs &K, Rng &r)
                 K.p_noise = 0.15;
                 K.max_cmds = 12;
                 K.p_nul = 0.1;
+                K.p_swarm = 0.001;
         } else if (prop == "C02") {
                 K.max_cmds = 16;
                 K.p_many_cmds = 0.08;
@@ -1450,6 +1485,7 @@ void knobs_for(const std::string &prop, Knobs &K, Rng &r)
                 K.p_garbage = 0.02;
                 K.p_events = 0.3;
                 K.p_implicit = 0.15;
+                K.p_swarm = 0.004;
         } else if (prop == "C04" || prop == "C05") {
                 K.p_vars = 1.0;
                 K.max_vars = 6;
@@ -1471,6 +1507,7 @@ void knobs_for(const std::string &prop, Knobs &K, Rng &r)
                 K.p_only_test = 0.2;
                 K.p_flag_ops = 0.5;
                 K.max_cmds = 10;
+                K.p_swarm = 0.001;
         } else if (prop == "C10") {
                 K.p_handler = 0.9;
                 K.p_script = 0.95;
@@ -1490,6 +1527,8 @@ void knobs_for(const std::string &prop, Knobs &K, Rng &r)
                 K.p_garbage = 0.03;
         } else if (prop == "C13") {
                 K.p_long_run = 0.15; // long trigger histories: ring indices wrap many laps
+                K.p_pump = 0.03;
+                K.p_marathon = 0.0005;
                 K.p_events = 1.0;
                 K.ev_cmds_max = 4;
                 K.max_lines = 6;
@@ -1559,6 +1598,8 @@ void knobs_for(const std::string &prop, Knobs &K, Rng &r)
                 K.p_giant = 0.0015;
         else if (prop != "C01" && prop != "C03")
                 K.p_giant = 0.0;
+        if (prop == "C16" || prop == "C17" || prop == "C12" || prop == "C20" || prop == "C07" || prop == "C08")
+                K.p_pump = 0.0;
         (void)r;
 }
 
@@ -1608,7 +1649,11 @@ Plan gen_plan(const std::string &prop, uint64_t seed, uint64_t idx, int qcap)
                         g.gen_ops_c12();
                 else if (prop == "C20")
                         g.gen_ops_c20();
-                else if (prop == "C17" || (prop == "C13" && idx % 20 == 7))
+                else if (prop == "C17" && idx % 400 == 399) {
+                        // one interleaving among the others: everything from one thread, but more than 65536 accepted events
+                        g.force_marathon = true;
+                        g.gen_ops();
+                } else if (prop == "C17" || (prop == "C13" && idx % 20 == 7))
                         g.gen_ops_c17(); // C13: one plan in twenty has its triggers issued by other threads
                 
                 else
